@@ -100,3 +100,9 @@ package parser
 //@   safe
 //@   requires wfP(p)
 //@   ensures wfP(p) && sameInput(p.Lexer.reader)
+
+//@ # Encapsulation: wfP(p) speaks only about unexported state of parser/lexer/reader (and the lexer's
+//@ # intern/reserved tables), which code outside these packages cannot write directly.  The engine
+//@ # uses this when it abstracts such code (callee without contract, loop body, interface call) and
+//@ # justifies it by `encap` obligations over every function of the three packages.
+//@ preserved wfP ti/parser.Parser owners ti/parser,ti/lexer,ti/lexer/reader
